@@ -71,6 +71,25 @@ theorem render_parse_markers (fas : List (Frame × Option Str)) (etype msg : Str
   simp only [Except.map, toString_eq_toStringA, noAnchors, List.map_map]
   rfl
 
+/-- plain sufficient conditions for `WFframe`: any non-empty path without line separators (spaces, quotes,
+    non-ASCII allowed), a decimal line number, a function name without `"` that does not end in a
+    space (`<module>`, `<lambda>`, identifiers), and a stripped source line that does not start with `F` -/
+theorem wfframe_simple (f : Frame) (h1 : f.file ≠ []) (h2 : f.file.all notSep = true)
+    (h3 : f.lineno ≠ []) (h4 : f.lineno.all isDigit = true)
+    (h5 : f.func.all notSep = true) (h6 : lastNotSpace f.func = true) (h7 : ∀ c ∈ f.func, c ≠ '"')
+    (h8 : f.src = [] ∨ (f.src.all notSep = true ∧ firstNotSpace f.src = true ∧ lastNotSpace f.src = true ∧
+          f.src.head? ≠ some 'F')) : WFframe f = true := by
+  have hs : WFsrc f.src = true := by
+    unfold WFsrc
+    rcases h8 with h8 | ⟨a, b, c, d⟩
+    · simp [h8]
+    · simp [a, b, c, matchFrame_none_of_head d]
+  simp [WFframe, h1, h2, h3, h4, h5, h6, noTail_of_noQuote h7, hs]
+
+example : WFframe ⟨"C:\\d \"x\"\\é.py".toList, "12".toList, "<lambda>".toList, "x = f(\"a\")".toList⟩ = true :=
+  wfframe_simple _ (by decide) (by decide +kernel) (by decide) (by decide +kernel) (by decide +kernel)
+    (by decide +kernel) (by decide) (Or.inr (by decide +kernel))
+
 /-- the same for a text given as such: `WFtext` is a decidable predicate on texts (layout reading gives
     well-formed data whose standard rendering is the text); for every such text from_string succeeds,
     recovers that data, and to_string gives the text back, character for character -/
@@ -85,6 +104,18 @@ theorem render_parse_text (t : Str) (h : WFtext t = true) :
     refine ⟨pe, rfl, h.1, ?_, ?_⟩
     · rw [← h.2]; exact parse_render pe h.1
     · rw [← h.2, parse_render pe h.1]; rfl
+
+/-- the texts accepted by the decidable predicate `WFtext` are exactly the standard renderings of
+    well-formed data (so every text the harness generates from well-formed data provably satisfies it) -/
+theorem wftext_iff (t : Str) : WFtext t = true ↔ ∃ pe, WFpe pe = true ∧ toString pe = t := by
+  constructor
+  · intro h
+    obtain ⟨pe, _, h2, h3, h4⟩ := render_parse_text t h
+    refine ⟨pe, h2, ?_⟩
+    rw [h3] at h4
+    exact Except.ok.inj h4
+  · rintro ⟨pe, h1, rfl⟩
+    exact WFtext_toString pe h1
 
 /-- a traceback text without exception line (traceback.format_stack, TracebackInfo.get_formatted):
     every frame is recovered, type and message are empty (before the fix: IndexError) -/
